@@ -95,7 +95,7 @@ impl PageToken {
 //@ ensures[C13] r@ == tok(self.v())
 //@end
 
-//@fn src/api/page_token.rs PageToken::try_decode tags=C13,C17 stub-body=1
+//@fn src/api/page_token.rs PageToken::try_decode tags=C13 stub-body=1
 //@ attr #[verifier::external_body]
 //@ ret r
 //@ ensures[C13] forall|v: usize| encoded@ == tok(v) ==> r.is_some() && r.unwrap().v() == v
@@ -112,7 +112,7 @@ impl From<PageToken> for usize {
 
 // ======================================================================================
 // src/api/parser.rs
-//@fn src/api/parser.rs parse_deadline_extension_duration tags=C05,C17
+//@fn src/api/parser.rs parse_deadline_extension_duration tags=C05
 //@ ret r
 //@ # C05 classes over all i32: <0 error, 0 nack, 1..599 that many seconds, >=600 capped
 //@ ensures[C05,C17] raw_value < 0 ==> r.is_err() && err_code(r) == Some(Code::InvalidArgument)
@@ -121,7 +121,7 @@ impl From<PageToken> for usize {
 //@ ensures[C05] raw_value >= 600 ==> r.is_ok() && r.unwrap().is_some() && dur_ns(r.unwrap().unwrap()) == 600 * 1_000_000_000
 //@end
 
-//@fn src/api/parser.rs parse_page_token tags=C13,C17
+//@fn src/api/parser.rs parse_page_token tags=C13
 //@ ret r
 //@ ensures[C13] raw_value@.len() == 0 ==> r.is_ok() && r.unwrap().is_none()
 //@ # an issued token decodes to its offset
@@ -133,7 +133,7 @@ impl From<PageToken> for usize {
 //@ closure 1 ensures e.code == Code::InvalidArgument
 //@end
 
-//@fn src/api/parser.rs parse_paging tags=C13,C17
+//@fn src/api/parser.rs parse_paging tags=C13
 //@ ret r
 //@ # negative page size is rejected
 //@ ensures[C13,C17] size < 0 ==> r.is_err()
@@ -159,7 +159,7 @@ pub mod parse_ax {
 pub use parse_ax::parsed;
 impl AckId {
     pub closed spec fn v(&self) -> int { self.value as int }
-//@fn src/subscriptions/ack_id.rs AckId::new tags=C02
+//@fn src/subscriptions/ack_id.rs AckId::new tags=C17
 //@ ret r
 //@ ensures r.v() == value
 //@end
@@ -167,19 +167,19 @@ impl AckId {
     // TRUSTED (A-STD): AckId::parse is a 3-line adapter over `str::parse::<u64>`; Verus has no declaration of the
     // FromStr trait / ParseIntError type. Assumed contract: total, a function of the string only.
     // Cross-checked by the bounded Kani harness `ackid_parse_bounded` (strings up to 3 bytes).
-//@fn src/subscriptions/ack_id.rs AckId::parse tags=C02,C17
+//@fn src/subscriptions/ack_id.rs AckId::parse tags=C17
 //@ attr #[verifier::external_body]
 //@ ret r
 //@ # C17: total; malformed exactly when std's u64 parser rejects the string; the value is std's
-//@ ensures[C02,C17] r.is_ok() <==> parsed::<u64>(raw_value@).is_some()
-//@ ensures[C02,C17] r.is_ok() ==> r.unwrap().v() == parsed::<u64>(raw_value@).unwrap()
+//@ ensures[C17] r.is_ok() <==> parsed::<u64>(raw_value@).is_some()
+//@ ensures[C17] r.is_ok() ==> r.unwrap().v() == parsed::<u64>(raw_value@).unwrap()
 //@end
 }
 
-//@fn src/api/parser.rs parse_ack_id tags=C02,C17
+//@fn src/api/parser.rs parse_ack_id tags=C17
 //@ ret r
-//@ ensures[C02,C17] r.is_ok() <==> parsed::<u64>(raw_value@).is_some()
-//@ ensures[C02,C17] r.is_ok() ==> r.unwrap().v() == parsed::<u64>(raw_value@).unwrap()
+//@ ensures[C17] r.is_ok() <==> parsed::<u64>(raw_value@).is_some()
+//@ ensures[C17] r.is_ok() ==> r.unwrap().v() == parsed::<u64>(raw_value@).unwrap()
 //@ ensures[C17] r.is_err() ==> err_code(r) == Some(Code::InvalidArgument)
 //@ closure 1 ret e: Status
 //@ closure 1 ensures e.code == Code::InvalidArgument
@@ -226,27 +226,27 @@ pub open spec fn mod_pair_ok(now: int, id: Seq<char>, secs: i32, r: Result<Deadl
                 now + d <= r.unwrap().new_deadline.unwrap().t() < now + d + grid_ns() }
     }
 }
-//@fn src/api/parser.rs parse_deadline_modifications tags=C05,C17 name=deadline_mod_pair
+//@fn src/api/parser.rs parse_deadline_modifications tags=C05 name=deadline_mod_pair
 //@ region /let ack_id = parse_ack_id\(ack_id\)\?;/ /^\s*Ok\(modification\)\s*$/ as fn deadline_mod_pair(now: Instant, ack_id: &String, seconds: &i32) -> (r: Result<DeadlineModification, Status>)
 //@ requires epoch().v() <= now.v() <= now_max()
-//@ ensures[C05,C17] mod_pair_ok(now.v(), ack_id@, *seconds, r)
+//@ ensures[C05] mod_pair_ok(now.v(), ack_id@, *seconds, r)
 //@end
 
 // ======================================================================================
 // regions of src/api/subscriber.rs (statements lifted out of async handlers, see DESIGN §4)
 //@include prelude/proto.rs
 
-//@fn src/api/subscriber.rs SubscriberService::create_subscription tags=C04,C10 name=ack_deadline_region tail=ack_deadline
+//@fn src/api/subscriber.rs SubscriberService::create_subscription tags=C04 name=ack_deadline_region tail=ack_deadline
 //@ region /let ack_deadline = match request\.ack_deadline_seconds \{/ /^\s*\};\s*$/ as fn ack_deadline_region(request: &SubscriptionProto) -> (ack_deadline: Duration)
 //@ # C04/C10: the effective ack deadline is the requested one, but at least 10 s, for every i32
-//@ ensures[C04,C10] dur_ns(ack_deadline) == (if request.ack_deadline_seconds <= 10 { 10 } else { request.ack_deadline_seconds as int }) * 1_000_000_000
+//@ ensures[C04] dur_ns(ack_deadline) == (if request.ack_deadline_seconds <= 10 { 10 } else { request.ack_deadline_seconds as int }) * 1_000_000_000
 //@end
 
-//@fn src/api/subscriber.rs SubscriberService::streaming_pull tags=C15,C17 name=stream_max_count tail=Ok(max_count)
+//@fn src/api/subscriber.rs SubscriberService::streaming_pull tags=C15 name=stream_max_count tail=Ok(max_count)
 //@ region /let max_count: u16 = request\.max_outstanding_messages\.try_into\(\)\.map_err/ /^\s*\}\)\?;\s*$/ as fn stream_max_count(request: &StreamingPullRequest) -> (r: Result<u16, Status>)
 //@ # C15/C17: the streaming limit is taken over unchanged when it fits 16 bits, otherwise INVALID_ARGUMENT
-//@ ensures[C15,C17] 0 <= request.max_outstanding_messages <= 65535 ==> r.is_ok() && r.unwrap() == request.max_outstanding_messages
-//@ ensures[C15,C17] !(0 <= request.max_outstanding_messages <= 65535) ==> err_code(r) == Some(Code::InvalidArgument)
+//@ ensures[C15] 0 <= request.max_outstanding_messages <= 65535 ==> r.is_ok() && r.unwrap() == request.max_outstanding_messages
+//@ ensures[C17] !(0 <= request.max_outstanding_messages <= 65535) ==> err_code(r) == Some(Code::InvalidArgument)
 //@ closure 1 ret e: Status
 //@ closure 1 ensures e.code == Code::InvalidArgument
 //@end
